@@ -27,7 +27,7 @@ META = {
     'level_note': ("Trusted: Coq kernel, harness, networkx single_source_shortest_path (modelled by the ball, validated by the runs). "
                    "No axioms. Explicit exclusions of blocks are carried through unchanged (C01); links in the C14 generator define "
                    "no exclusions of their own."),
-    'rule': ("cases = force fields with 2-3 blocks (nrexcl drawn from 0-4, equal or mixed) and 1-3 bond-making links x residue "
+    'rule': ("cases = force fields with 2-3 blocks (nrexcl drawn from 0-4, equal or mixed), 1-3 bond-making links and (30%) a bond made by a by_atom_id link x residue "
              "graphs of 2-6 residues; plus all ordered pairs of distances 0..4 on a two-block chain; non-trivial = mixed distances "
              "with at least one generated pair; distinct by (force-field text, graph)"),
 }
@@ -67,6 +67,13 @@ def gen_case(rng, pair=None):
     if pair:
         g = ffgen.gen_resgraph(rng, ff, nres=rng.randint(2, 4), shape='path')
         g['resnames'] = [names[i % 2] for i in range(g['nres'])]
+    elif rng.random() < 0.3:
+        # a bond made by a link that addresses atoms of the finished molecule by id (ring closure, cross link)
+        by = {b['name']: b for b in blocks}
+        natoms = sum(len(by[n]['atoms']) for n in g['resnames'])
+        if natoms >= 3:
+            a, b = sorted(rng.sample(range(1, natoms + 1), 2))
+            ff['explicit_links'] = [{'bonds': [{'atoms': [a, b], 'params': ['1', '0.400', '3000.000']}]}]
     return ff, g
 
 
@@ -106,6 +113,8 @@ def run(ctx):
         by = {b['name']: b for b in ff['blocks']}
         vals = sorted({by[n]['nrexcl'] for n in g['resnames']})
         ctx.feature('mixed' if len(vals) > 1 else 'uniform')
+        if ff.get('explicit_links'):
+            ctx.feature('bond_made_by_atom_id_link')
         if 'error' in out:
             ctx.violation('spec', f"the pipeline failed on a generated input: {out['error']}", {'ff': ff, 'graph': g, 'error': out['error']})
             ctx.case(json.dumps([text, g], sort_keys=True), nontrivial=False)
